@@ -28,14 +28,14 @@ SOFT_SITES = ["xyz.write", "xyz.flush", "xyz.close", "ckpt.save", "ckpt.mkstemp"
 def gen_cfg(rng, real_frac=0.06, allow_long=True, engines=None):
     real = rng.random() < real_frac
     if real:
-        eng = rng.choice(engines or ["basic", "langevin", "xl", "ksa", "xl_damp", "exc_basic", "exc_xl", "sh"])
+        eng = rng.choice(engines or ["basic", "langevin", "xl", "ksa", "xl_damp", "exc_basic", "exc_xl", "xl_esmd", "sh"])
     else:
-        eng = rng.choice(engines or ["basic", "langevin", "xl", "xl", "ksa", "ksa", "xl_damp", "sh_model", "sh_model", "exc_basic", "exc_xl"])
+        eng = rng.choice(engines or ["basic", "langevin", "xl", "xl", "ksa", "ksa", "xl_damp", "sh_model", "sh_model", "exc_basic", "exc_xl", "xl_esmd"])
         if eng not in mdsim.STUB_OK:
             real = True
     cfg = {"engine": eng, "driver": "real" if real else "stub"}
     if real:
-        if eng in ("exc_basic", "exc_xl", "sh"):
+        if eng in ("exc_basic", "exc_xl", "xl_esmd", "sh"):
             cfg["batch"] = rng.choice(REAL_EXC_BATCHES)
             cfg["steps"] = rng.randint(3, 6)
             cfg["n_states"] = 2 if eng == "sh" else 3
@@ -53,10 +53,10 @@ def gen_cfg(rng, real_frac=0.06, allow_long=True, engines=None):
         if rng.random() < 0.3:
             cfg["extra_pad"] = rng.randint(1, 2)
             cfg["pad_coords"] = True
-        if eng in ("exc_basic", "exc_xl"):
-            # excited-state BOMD / XL-BOMD on the stub's synthetic amplitudes and transition densities
+        if eng in ("exc_basic", "exc_xl", "xl_esmd"):
+            # excited-state BOMD / XL-BOMD / XL-ESMD on the stub's synthetic amplitudes and transition densities
             cfg["n_states"] = rng.randint(1, 4)
-            cfg["active_state"] = rng.randint(0, cfg["n_states"])
+            cfg["active_state"] = rng.randint(0 if eng != "xl_esmd" else 1, cfg["n_states"])
             cfg["stub"]["gamma"] = rng.choice([0.3, 0.8])
     if eng == "sh_model":
         # surface hopping on the analytic N-state model: cheap enough for thousands of crash/resume runs
@@ -79,7 +79,7 @@ def gen_cfg(rng, real_frac=0.06, allow_long=True, engines=None):
     cfg["seed"] = rng.randrange(1 << 20)
     if eng in ("langevin", "xl_damp"):
         cfg["damp"] = rng.choice([5.0, 20.0, 100.0])
-    if eng in ("xl", "xl_damp", "ksa", "exc_xl"):
+    if eng in ("xl", "xl_damp", "ksa", "exc_xl", "xl_esmd"):
         cfg["k"] = rng.randint(3, 9)
     if eng == "ksa":
         cfg["max_rank"] = rng.randint(1, 3)
@@ -89,7 +89,7 @@ def gen_cfg(rng, real_frac=0.06, allow_long=True, engines=None):
     h5 = {"data": cad(), "coordinates": cad(), "velocities": cad(), "forces": cad()}
     if eng in ("sh", "sh_model"):
         h5["nonadiabatic"] = rng.choice([0, 1, 2, 3])
-    if eng in ("exc_basic", "exc_xl"):
+    if eng in ("exc_basic", "exc_xl", "xl_esmd"):
         h5["transition_density_matrices"] = rng.choice([0, 1, 2, 3, 4])
     cfg["out"] = {
         "molid": molid,
